@@ -249,10 +249,19 @@ def run_endpoint(req):
   req = dict(req, task_options=tasks)
   mod, cls = VIEWS[req["endpoint"]]
   view = None
+  # record the weighted draws (numpy.random.choice(options, p=...)) the endpoint makes: the parameters of the task draw are part of C01
+  weighted, real_choice = [], numpy.random.choice
+
+  def spy_choice(a, size=None, replace=True, p=None):
+    if p is not None:
+      weighted.append((numpy.asarray(a, dtype=float).ravel().tolist(), numpy.asarray(p, dtype=float).ravel().tolist()))
+    return real_choice(a, size=size, replace=replace, p=p)
+  numpy.random.choice = spy_choice
   try:
     view = getattr(importlib.import_module(mod), cls)(params)
     resp = view.view()
   except Exception as e:
+    numpy.random.choice = real_choice
     import traceback
     out = dict(error=type(e).__name__, message=str(e)[:300], where=traceback.format_exc()[-600:], task_options=tasks)
     if req["endpoint"] == "spe_search":
@@ -264,5 +273,7 @@ def run_endpoint(req):
       except Exception:
         pass
     return out
+  finally:
+    numpy.random.choice = real_choice
   pts = numpy.asarray(resp["points_to_sample"], dtype=float)
-  return dict(points=pts.tolist(), task_costs=resp.get("task_costs"), task_options=tasks)
+  return dict(points=pts.tolist(), task_costs=resp.get("task_costs"), task_options=tasks, weighted_draws=weighted)
